@@ -59,6 +59,20 @@ def replay(col, case):
         chk("rayleighjeans", em.rayleighjeans, arr(case["rj"]), fg, 300.0)
         chk("rayleighjeans_wavelength", em.rayleighjeans_wavelength, arr(case["rjl"]), fg, 300.0)
         chk("radiance2rayleighjeansTb", em.radiance2rayleighjeansTb, arr(case["rjtb"]), fg, 7.0)
+        # whole-number grid values handed over as int32 arrays: same values (no arithmetic in 32-bit integers)
+        whole = np.array([v for v in fg if float(v).is_integer()])
+        if whole.size:
+            wi = whole.astype("int32")
+            for name, fn in (("frequency2wavelength", em.frequency2wavelength), ("frequency2wavenumber", em.frequency2wavenumber),
+                             ("wavenumber2frequency", em.wavenumber2frequency), ("wavelength2wavenumber", em.wavelength2wavenumber),
+                             ("wavenumber2wavelength", em.wavenumber2wavelength), ("wavelength2frequency", em.wavelength2frequency)):
+                try:
+                    a_f, a_i = np.asarray(fn(whole), dtype=float), np.asarray(fn(wi), dtype=float)
+                    col.count(1)
+                    if a_f.shape != a_i.shape or not np.all(np.abs(a_f - a_i) <= 1e-12 * np.abs(a_f)):
+                        col.violation(name + "-differs-for-int32-input", dict(rep, expected=a_f.tolist(), observed=a_i.tolist()))
+                except Exception as ex:
+                    col.violation(name + "-raises-" + type(ex).__name__ + "-int32", dict(rep, observed=repr(ex)[:200]))
         # frequencies 10^9 times the grid values given as Python integers / floats / arrays (RjHomogeneous: the radiance
         # scales by 10^18, the brightness temperature by 10^-18)
         for i, f in enumerate(fg):
@@ -151,6 +165,28 @@ def replay_planck_forms(col, cases):
         if not np.all(np.abs(Bl - B * ff ** 2 / c) <= 1e-12 * np.abs(Bl)) or not np.all(np.abs(Bn - c * B) <= 1e-12 * np.abs(Bn)):
             col.violation("planck-forms-disagree-" + label, dict(rep, observed={"wavelength_form": Bl.ravel()[:3].tolist(),
                                                                                  "frequency_form_times_f2_over_c": (B * ff ** 2 / c).ravel()[:3].tolist()}))
+    # with the REAL constants: whole-number wavenumbers / spectra as int32 arrays give the values of the float call
+    wn = np.array([1, 2, 5, 10, 15], dtype="int32")
+    for name, fn in (("wavenumber2frequency", em.wavenumber2frequency), ("wavenumber2wavelength", em.wavenumber2wavelength),
+                     ("frequency2wavenumber", em.frequency2wavenumber), ("frequency2wavelength", em.frequency2wavelength)):
+        try:
+            a_f, a_i = np.asarray(fn(wn.astype(float)), dtype=float), np.asarray(fn(wn), dtype=float)
+            col.count(1)
+            if a_f.shape != a_i.shape or not np.all(np.abs(a_f - a_i) <= 1e-12 * np.abs(a_f)):
+                col.violation(name + "-differs-for-int32-input", {"abstract": {"values": wn.tolist()}, "expected": a_f.tolist(), "observed": a_i.tolist()})
+        except Exception as ex:
+            col.violation(name + "-raises-" + type(ex).__name__ + "-int32", {"abstract": {"values": wn.tolist()}, "observed": repr(ex)[:200]})
+    try:
+        sp_i = np.array([[1, 2], [3, 4], [5, 6]], dtype="int32")
+        grid = np.array([1.0e11, 2.0e11, 4.0e11])
+        a_f = em.perfrequency2perwavenumber(sp_i.astype(float), grid.copy())
+        a_i = em.perfrequency2perwavenumber(sp_i, grid.copy())
+        col.count(1)
+        if not np.all(np.abs(np.asarray(a_f[0], dtype=float) - np.asarray(a_i[0], dtype=float)) <= 1e-12 * np.abs(np.asarray(a_f[0], dtype=float))):
+            col.violation("perfrequency2perwavenumber-differs-for-int32-input", {"abstract": {"spectrum": sp_i.tolist()},
+                                                                                 "expected": np.asarray(a_f[0]).tolist(), "observed": np.asarray(a_i[0]).tolist()})
+    except Exception as ex:
+        col.violation("perfrequency2perwavenumber-raises-" + type(ex).__name__ + "-int32", {"observed": repr(ex)[:200]})
     col.nontrivial.add("planck-forms")
 
 
